@@ -33,7 +33,7 @@ func NewIncSolver() *IncSolver {
 	if bin == "" {
 		bin = "z3-new"
 	}
-	c := exec.Command(bin, "-in", "-t:400")
+	c := exec.Command(bin, "-in", "-t:120")
 	in, _ := c.StdinPipe()
 	out, _ := c.StdoutPipe()
 	c.Stderr = io.Discard
@@ -61,6 +61,7 @@ func (s *IncSolver) Feasible(asserts []*Term) bool {
 			return false
 		}
 	}
+	asserts = dropFP(asserts)
 	if s.broken {
 		return true
 	}
@@ -71,7 +72,7 @@ func (s *IncSolver) Feasible(asserts []*Term) bool {
 		s.Time += d
 		if os.Getenv("GOVC_TRACE") != "" && d > 20*time.Millisecond {
 			fmt.Fprintf(os.Stderr, "inc query %v: %d asserts, %d nodes\n", d.Round(time.Millisecond), len(asserts), termSize(asserts))
-			if d > time.Second && os.Getenv("GOVC_TRACE") == "dump" {
+			if d > 300*time.Millisecond && os.Getenv("GOVC_TRACE") == "dump" {
 				os.WriteFile(fmt.Sprintf("/tmp/slow-%d.smt2", s.N), []byte("(set-logic ALL)\n"+Script(asserts, nil, false)+"(check-sat)\n"), 0o644)
 			}
 		}
@@ -93,8 +94,11 @@ func (s *IncSolver) Feasible(asserts []*Term) bool {
 		switch {
 		case line == "unsat":
 			return false
-		case line == "sat" || line == "unknown" || line == "timeout":
+		case line == "sat":
 			return true
+		case line == "unknown" || line == "timeout":
+			// incremental mode gives up early on mixed Int/bit-vector goals that a fresh solver decides at once
+			return oneShotFeasible(asserts)
 		case strings.HasPrefix(line, "(error"):
 			fmt.Fprintln(os.Stderr, "govc: incremental solver:", line)
 			// keep reading: a check-sat answer still follows
@@ -104,9 +108,10 @@ func (s *IncSolver) Feasible(asserts []*Term) bool {
 
 // ModelInt returns the value of an Int term in some model of asserts (ok=false if none is found).
 func (s *IncSolver) ModelInt(asserts []*Term, t *Term) (int64, bool) {
-	if s.broken {
+	if s.broken || t.fp {
 		return 0, false
 	}
+	asserts = dropFP(asserts)
 	s.N++
 	t0 := time.Now()
 	defer func() { s.Time += time.Since(t0) }()
@@ -166,10 +171,44 @@ func (s *IncSolver) ModelInt(asserts []*Term, t *Term) (int64, bool) {
 	return n.Int64(), true
 }
 
+func oneShotFeasible(asserts []*Term) bool {
+	script := "(set-logic ALL)\n" + Script(asserts, nil, false) + "(check-sat)\n"
+	ctx, cancel := context.WithTimeout(context.Background(), 3*time.Second)
+	defer cancel()
+	c := exec.CommandContext(ctx, "z3-new", "-in", "-T:2")
+	c.Stdin = strings.NewReader(script)
+	out, _ := c.Output()
+	return firstLine(string(out)) != "unsat"
+}
+
+// dropFP removes floating-point facts from a pruning query: the incremental solver is slow on them, and a
+// query with fewer hypotheses only over-approximates feasibility (sound for pruning and for validity).
+func dropFP(asserts []*Term) []*Term {
+	n := 0
+	for _, a := range asserts {
+		if a.fp {
+			n++
+		}
+	}
+	if n == 0 {
+		return asserts
+	}
+	out := make([]*Term, 0, len(asserts)-n)
+	for _, a := range asserts {
+		if !a.fp {
+			out = append(out, a)
+		}
+	}
+	return out
+}
+
 // Valid reports whether goal follows from asserts according to the incremental solver (unknown = false).
 func (s *IncSolver) Valid(asserts []*Term, goal *Term) bool {
 	if goal.IsTrue() {
 		return true
+	}
+	if goal.fp {
+		return false
 	}
 	return !s.Feasible(append(append([]*Term(nil), asserts...), Not(goal)))
 }
